@@ -101,6 +101,8 @@ class Gen:
                 return ('Q', ('Q', ('A', r.choice('ilcB'))))
             if r.random() < 0.15:
                 return ('Q', ('A', 'c'))          # strings are the most common sequence in logging
+            if r.random() < 0.08:
+                return ('Q', ('A', 'y'))          # vector<bool> is the only proxy sequence
             return ('Q', self.rand_ty(depth + 1, deser_only))
         if k < 5:
             return ('T', [self.rand_ty(depth + 1, deser_only) for _ in range(r.choice([0, 1, 2, 2, 3, 4]))])
@@ -190,6 +192,11 @@ class Gen:
             return ('n', r.randrange(1 << (8 * size)))
         if k == 'Q':
             n = r.choice([0, 0, 1, 2, 3, 5, 33, 40] if depth < 2 else [0, 1, 2, 3])
+            if ty[1] == ('A', 'y') and depth < 3 and r.random() < 0.5:
+                n = r.choice([63, 64, 65, 128, 192, 256, 4096])
+            elif ty[1][0] == 'A' and depth < 3 and r.random() < 0.25:
+                # sequences of scalars are copied / converted in blocks: lengths around the usual block sizes
+                n = r.choice([15, 16, 17, 31, 32, 63, 64, 65, 127, 128, 129, 192, 255, 256, 257, 1000, 4096])
             return ('q', [self.rand_val(ty[1], depth + 1) for _ in range(n)])
         if k == 'T':
             return ('t', [self.rand_val(t, depth + 1) for t in ty[1]])
@@ -230,7 +237,7 @@ class Gen:
             if et == ('A', 'c'):
                 kinds += ['string', 'string']
             if et == ('A', 'y'):
-                kinds += ['vector_bool'] if elem['cxx'] == 'bool' else []
+                kinds += ['vector_bool', 'vector_bool', 'vector_bool'] if elem['cxx'] == 'bool' else []
             if et[0] == 'A' and et[1] in INT_TAGS + 'c':
                 kinds += ['set', 'multiset']
             elif comparable_rt(elem) and not contains_map(elem):
@@ -243,9 +250,15 @@ class Gen:
                 kinds += ['array', 'carray' if top else 'fixedseq', 'array_view', 'sizedseq', 'nosizeseq']
                 if et == ('A', 'c'):
                     kinds += ['cstr', 'cstr']
+            if moveonly(elem):
+                # std::deque's move constructor is not noexcept: a struct holding a deque of move-only elements cannot be
+                # put into a std::vector (libstdc++ falls back to the ill-formed copy) - not a property of binlog
+                kinds = [k_ for k_ in kinds if k_ != 'deque']
             kind = r.choice(kinds)
             if getattr(self, 'prefer_cstr', False) and 'cstr' in kinds:
                 kind = 'cstr'
+            if 'vector_bool' in kinds and r.random() < 0.6:
+                kind = 'vector_bool'
             self.bump('seq-' + kind)
             if kind in ('array', 'carray', 'fixedseq', 'array_view', 'sizedseq', 'nosizeseq', 'cstr', 'map', 'multimap'):
                 n = r.choice([0, 1, 2, 3, 5, 33, 40]) if kind in ('array', 'carray', 'fixedseq') else None
@@ -321,7 +334,8 @@ class Gen:
                     fields.append((n, f))
                 if ser_only:
                     deserable = False
-                    self.const_members[ty[1]] = [r.random() < 0.6 for _ in fields]
+                    # (a const member of a move-only type would make the struct itself neither movable nor copyable)
+                    self.const_members[ty[1]] = [r.random() < 0.6 and f is not None and not moveonly(f) for _, f in fields]
                 self.struct_rt[ty[1]] = fields
                 self.struct_deser[ty[1]] = deserable
                 if not any(f is None for _, f in fields):
@@ -889,7 +903,11 @@ def make_program(rng, prefix, ncases):
     cases = []
     body = []
     for i in range(ncases):
-        ty = g.rand_ty()
+        if i < 3:
+            # every program starts with plain sequences of scalars (block-wise copied / converted, proxy sequences)
+            ty = ('Q', ('A', rng.choice('yycilBLd')))
+        else:
+            ty = g.rand_ty()
         while ty[0] == 'N':
             ty = g.rand_ty()
         rt = g.realise(ty, top=True)
